@@ -237,6 +237,18 @@ Truncate(st, n) ==
                      ELSE [i \in 0..(size - 1) |-> IF i < st.cursor THEN st.mem[i] ELSE 0],
              !.live = [x \in {} |-> 0], !.leaked = leakedAll, !.refs = 1, !.truncated = TRUE]
 
+\* close + map_mut reopen (memory.rs map_mut_in, reopen branch): handles are given up, the mapping covers `cap`
+\* bytes (0 = the whole file; the file grows when it is shorter), bytes above the stored cursor are zeroed
+ReopenMut(st, capArg) ==
+  LET len == Cardinality(DOMAIN st.mem)
+      cap2 == IF capArg = 0 THEN len ELSE capArg
+      len2 == Max(len, cap2)
+      leakedAll == st.leaked \cup {AsLeak(st.live[h]) : h \in DOMAIN st.live} IN
+  [st EXCEPT !.cap = cap2,
+             !.mem = [i \in 0..(len2 - 1) |-> IF i >= st.cursor /\ i < cap2 THEN 0 ELSE IF i < len THEN st.mem[i] ELSE 0],
+             !.live = [x \in {} |-> 0], !.leaked = leakedAll, !.refs = 1, !.nextId = 1,
+             !.first = FALSE, !.truncated = FALSE]
+
 \* ---------------------------------------------------------------- one call = one step
 \* op is the harness's op record; returns [st, res, zeroOk]
 TypeOf(op) == [size |-> op.s, align |-> op.a]
@@ -257,6 +269,8 @@ Step(st, op, fixedRewind) ==
   ELSE IF op.k = "rewind" THEN [st |-> Rewind(st, op.p, op.v, fixedRewind), res |-> ok, zeroOk |-> TRUE]
   ELSE IF op.k = "clear" THEN [st |-> Clear(st), res |-> ok, zeroOk |-> TRUE]
   ELSE IF op.k = "truncate" THEN [st |-> Truncate(st, op.v), res |-> ok, zeroOk |-> TRUE]
+  ELSE IF op.k = "flush" THEN [st |-> st, res |-> ok, zeroOk |-> TRUE]
+  ELSE IF op.k = "reopen" THEN [st |-> ReopenMut(st, op.cap), res |-> ok, zeroOk |-> TRUE]
   ELSE Assert(FALSE, <<"unknown op", op>>)
 
 \* an op is meaningful in st (handle exists)
